@@ -5,7 +5,11 @@ package main
 // written to be obviously faithful to docs/eng/providers.md; well-formed files only.
 
 import (
+	"encoding/json"
 	"fmt"
+	"hash/fnv"
+	"io"
+	"sort"
 	"strings"
 
 	"github.com/spf13/afero"
@@ -40,6 +44,14 @@ type apLayout struct {
 	NoFinalNL bool // the file does not end with a newline
 	Big       bool // every entry carries ~5 KB of padding: files exceed the 4 KB bufio.Reader / (with 40 entries) 64 KB scanner buffers
 	Rel       bool // the config names the file by a path relative to the working directory (OS fs only)
+	// Oversize > 0: entry OverAt is that many bytes long - longer than bufio.MaxScanTokenSize (64 KiB) - and, with
+	// RaiseOpt, the provider's size option (`maxammosize`) is set to 1 MiB, which makes such an entry legal.
+	// Without RaiseOpt (grpc/json only) the entry is over the default limit: the provider must fail cleanly.
+	Oversize int
+	OverAt   int
+	RaiseOpt bool
+	Hdr      bool // in-file header lines and blank lines between the entries (uri, uris, uripost); `headers:` option (HTTP kinds)
+	SmallBuf bool // generic json: `buffer-size` at its minimum, so entries straddle the read buffer
 }
 
 func (l apLayout) String() string {
@@ -53,7 +65,28 @@ func (l apLayout) String() string {
 	if l.Rel {
 		s += "+rel"
 	}
+	if l.Oversize > 0 {
+		s += fmt.Sprintf("+over%d@%d", l.Oversize, l.OverAt+1)
+		if !l.RaiseOpt {
+			s += "-noopt"
+		}
+	}
+	if l.Hdr {
+		s += "+hdr"
+	}
+	if l.SmallBuf {
+		s += "+smallbuf"
+	}
 	return s
+}
+
+// apOversizeKind: kinds whose format can carry an entry of arbitrary size (uri lines and scenario files cannot)
+func apOversizeKind(k string) bool {
+	switch k {
+	case "raw", "uripost", "jsonline", "jsonarray", "grpcjson", "json":
+		return true
+	}
+	return false
 }
 
 var apPad = strings.Repeat("0123456789abcdef", 320) // 5120 bytes, no newline, URL- and JSON-safe
@@ -65,41 +98,81 @@ func apRender(fs afero.Fs, c apCase, dir string, lay apLayout) (map[string]inter
 	var b strings.Builder
 	conf := map[string]interface{}{"limit": c.Limit, "passes": c.Passes}
 	name := fmt.Sprintf("c%d", c.ID)
-	pad, qpad, jpad := "", "", ""
-	if lay.Big {
-		pad = apPad
-		qpad = "?pad=" + apPad
-		jpad = `,"pad":"` + apPad + `"`
+	padOf := func(j int) string {
+		if lay.Oversize > 0 && j == lay.OverAt {
+			return strings.Repeat(apPad, lay.Oversize/len(apPad)+1)[:lay.Oversize]
+		}
+		if lay.Big {
+			return apPad
+		}
+		return ""
+	}
+	qpadOf := func(j int) string {
+		if lay.Big {
+			return "?pad=" + apPad
+		}
+		return ""
+	}
+	jpadOf := func(j int) string {
+		if p := padOf(j); p != "" {
+			return `,"pad":"` + p + `"`
+		}
+		return ""
+	}
+	// header / blank lines between the entries: no entries, whatever the pass
+	sepOf := func(j int) string {
+		if !lay.Hdr {
+			return ""
+		}
+		if j == 0 {
+			return "[X-H: hv]\n"
+		}
+		return "\n[X-H2: hv" + fmt.Sprint(j) + "]\n"
+	}
+	if lay.Oversize > 0 && lay.RaiseOpt && c.Kind != "json" {
+		conf["maxammosize"] = 1 << 20
+	}
+	if lay.Hdr && c.Kind != "grpcjson" && c.Kind != "json" && c.Kind != "httpscn" && c.Kind != "grpcscn" {
+		conf["headers"] = []interface{}{"[X-Cfg: cv]"}
+	}
+	if lay.SmallBuf && c.Kind == "json" {
+		conf["buffer-size"] = "5kb"
 	}
 	switch c.Kind {
 	case "uri":
 		conf["type"] = "uri"
 		for j := 0; j < n; j++ {
-			fmt.Fprintf(&b, "/%s%s %s\n", apEntryName(j), qpad, apEntryName(j))
+			fmt.Fprintf(&b, "%s/%s%s %s\n", sepOf(j), apEntryName(j), qpadOf(j), apEntryName(j))
 		}
 	case "uris":
 		conf["type"] = "uri"
 		uris := []interface{}{}
 		for j := 0; j < n; j++ {
+			if lay.Hdr {
+				uris = append(uris, "[X-H: hv"+fmt.Sprint(j)+"]")
+			}
 			uris = append(uris, fmt.Sprintf("/%s %s", apEntryName(j), apEntryName(j)))
 		}
 		conf["uris"] = uris
 	case "raw":
 		conf["type"] = "raw"
 		for j := 0; j < n; j++ {
-			req := fmt.Sprintf("GET /%s HTTP/1.1\r\nHost: h.example\r\nX-Pad: p%s\r\n\r\n", apEntryName(j), pad)
+			req := fmt.Sprintf("GET /%s HTTP/1.1\r\nHost: h.example\r\n\r\n", apEntryName(j))
+			if body := padOf(j); body != "" {
+				req = fmt.Sprintf("POST /%s HTTP/1.1\r\nHost: h.example\r\nContent-Length: %d\r\n\r\n%s", apEntryName(j), len(body), body)
+			}
 			fmt.Fprintf(&b, "%d %s\n%s\n", len(req), apEntryName(j), req)
 		}
 	case "uripost":
 		conf["type"] = "uripost"
 		for j := 0; j < n; j++ {
-			body := fmt.Sprintf("body-%d%s", j+1, pad)
-			fmt.Fprintf(&b, "%d /%s %s\n%s\n", len(body), apEntryName(j), apEntryName(j), body)
+			body := fmt.Sprintf("body-%d%s", j+1, padOf(j))
+			fmt.Fprintf(&b, "%s%d /%s %s\n%s\n", sepOf(j), len(body), apEntryName(j), apEntryName(j), body)
 		}
 	case "jsonline":
 		conf["type"] = "http/json"
 		for j := 0; j < n; j++ {
-			fmt.Fprintf(&b, `{"host":"h.example","method":"GET","uri":"/%s","tag":"%s","body":"b%s"}`+"\n", apEntryName(j), apEntryName(j), pad)
+			fmt.Fprintf(&b, `{"host":"h.example","method":"GET","uri":"/%s","tag":"%s","body":"b%s"}`+"\n", apEntryName(j), apEntryName(j), padOf(j))
 		}
 	case "jsonarray":
 		conf["type"] = "http/json"
@@ -109,13 +182,13 @@ func apRender(fs afero.Fs, c apCase, dir string, lay apLayout) (map[string]inter
 			if j == n-1 {
 				sep = ""
 			}
-			fmt.Fprintf(&b, `  {"host":"h.example","method":"GET","uri":"/%s","tag":"%s","body":"b%s"}%s`+"\n", apEntryName(j), apEntryName(j), pad, sep)
+			fmt.Fprintf(&b, `  {"host":"h.example","method":"GET","uri":"/%s","tag":"%s","body":"b%s"}%s`+"\n", apEntryName(j), apEntryName(j), padOf(j), sep)
 		}
 		b.WriteString("]\n")
 	case "grpcjson":
 		conf["type"] = "grpc/json"
 		for j := 0; j < n; j++ {
-			fmt.Fprintf(&b, `{"tag":"%s","call":"target.TargetService.Hello","payload":{"k":%d%s}}`+"\n", apEntryName(j), j+1, jpad)
+			fmt.Fprintf(&b, `{"tag":"%s","call":"target.TargetService.Hello","payload":{"k":%d%s}}`+"\n", apEntryName(j), j+1, jpadOf(j))
 		}
 	case "httpscn":
 		conf["type"] = "http/scenario"
@@ -134,7 +207,7 @@ func apRender(fs afero.Fs, c apCase, dir string, lay apLayout) (map[string]inter
 	case "json":
 		conf["type"] = "json"
 		for j := 0; j < n; j++ {
-			fmt.Fprintf(&b, `{"id":"%s","n":%d%s}`+"\n", apEntryName(j), j+1, jpad)
+			fmt.Fprintf(&b, `{"id":"%s","n":%d%s}`+"\n", apEntryName(j), j+1, jpadOf(j))
 		}
 	default:
 		return nil, "", fmt.Errorf("unknown kind %q", c.Kind)
@@ -189,32 +262,56 @@ type apHTTPAmmo interface {
 	Request() (*http.Request, *netsample.Sample)
 }
 
-// apProject maps an acquired ammo to the index (0-based) of the file entry it was made from, -1 if unknown.
-func apProject(a core.Ammo, n int) int {
+// apProject maps an acquired ammo to the index (0-based) of the file entry it was made from (-1 if unknown) and a
+// fingerprint of everything a gun would see of it: the same entry must look the same in every pass.
+func apProject(a core.Ammo, n int) (int, uint64) {
 	name := ""
+	h := fnv.New64a()
 	switch x := a.(type) {
 	case apHTTPAmmo:
 		req, _ := x.Request()
 		if req != nil && req.URL != nil {
 			name = strings.TrimPrefix(req.URL.Path, "/")
+			fmt.Fprintf(h, "%s|%s|%s|", req.Method, req.URL.String(), req.Host)
+			keys := make([]string, 0, len(req.Header))
+			for k := range req.Header {
+				keys = append(keys, k)
+			}
+			sort.Strings(keys)
+			for _, k := range keys {
+				fmt.Fprintf(h, "%s=%q;", k, req.Header[k])
+			}
+			if req.Body != nil {
+				nb, _ := io.Copy(h, req.Body)
+				fmt.Fprintf(h, "|%d", nb)
+			}
 		}
 	case *grpcammo.Ammo:
 		name = x.Tag
+		pl, _ := json.Marshal(x.Payload)
+		md, _ := json.Marshal(x.Metadata)
+		fmt.Fprintf(h, "%s|%s|%s|%s", x.Tag, x.Call, md, pl)
 	case *httpscn.Scenario:
 		name = x.Name
+		fmt.Fprintf(h, "%s|%d|%v", x.Name, len(x.Requests), x.MinWaitingTime)
 	case *grpcscn.Scenario:
 		name = x.Name
+		fmt.Fprintf(h, "%s|%d|%v", x.Name, len(x.Calls), x.MinWaitingTime)
 	case map[string]interface{}:
 		name, _ = x["id"].(string)
+		b, _ := json.Marshal(x)
+		h.Write(b)
 	case *map[string]interface{}:
 		if x != nil {
 			name, _ = (*x)["id"].(string)
+			b, _ := json.Marshal(*x)
+			h.Write(b)
 		}
 	}
 	for j := 0; j < n; j++ {
 		if name == apEntryName(j) {
-			return j
+			return j, h.Sum64()
 		}
 	}
-	return -1
+	return -1, 0
 }
